@@ -121,6 +121,11 @@ class NotifyMonitor(Monitor):
 
 
 # ------------------------------------------------------------------------------------------
+class _RedisOwner(object):
+    name = "redis"
+    incarnation = 0
+
+
 class RecordMonitor(Monitor):
     """C02: record invariants and immutability after the end, polled after every scheduler step."""
 
@@ -135,6 +140,19 @@ class RecordMonitor(Monitor):
         res.sim.after_step.append(self.poll)
 
     def stores(self):
+        """(owner, {arn: record}) per store: each instance's memory, or the Redis server the instances share (read
+        directly from the server model: no commands, no perturbation)."""
+        rs = getattr(self.world, "redis_server", None)
+        if rs is not None:
+            out = {}
+            for k, (kind, val) in rs.data.items():
+                if k.startswith("executions:") and kind == "hash":
+                    exp = rs.expiry.get(k)
+                    if exp is not None and self.sim.now > exp:
+                        continue
+                    out[k[len("executions:"):]] = {json.loads(f): json.loads(v) for f, v in val.items()}
+            yield _RedisOwner, out
+            return
         for n in self.world.nodes:
             se = n.state_engine
             if se is None:
